@@ -183,8 +183,17 @@ def c035(ctx):
         _c035_one(ctx, inline_calls(P, P.fn(ap_), lambda body, callee, w_=contains(rx_calls=r'std::io::Write>::write_all$'): callee.startswith('ripd::continuity_stream_cache::') and w_(body, callee), depth=2, note=ctx.note))
     app = P.fn('rip_log::EventLog::append')
     sw_on_event = []
+    evp = [i for i in range(1, app.argc + 1) if 'rip_kernel::Event' in (app.lty(i) or '')]
     for (bi, on, ts, els) in switches(app):
         if fields_read(app, on, 'rip_kernel::Event'):
+            sw_on_event.append(bi)
+            continue
+        # a test of something computed from the frame (its serialised length, a prefix, ...) is a content filter as well;
+        # the `?` on the serialiser / writer calls themselves (a discriminant of a call result) is not
+        o = app.origin(on)
+        if o[0] == 'rv' and o[1]['k'] == 'discr':
+            continue
+        if evp and any(e_ in reads_locals(app, on) for e_ in evp) and not (o[0] == 'call' and re.search(r'Try>::branch$', o[1].callee or '')):
             sw_on_event.append(bi)
     ctx.ob('C03.5', app, 'truth-append-unconditional', not sw_on_event, 'EventLog::append has %d branch(es) on the event' % len(sw_on_event), line=app.line)
 
